@@ -141,6 +141,15 @@ func jsonValue(depth int) string {
 	}
 }
 
+// jsonBackslashStr: a string of three units out of an (escaped) backslash, *, ? and a letter.
+func jsonBackslashStr() string {
+	out := "\""
+	for i := 0; i < 3; i++ {
+		out += []string{"\\\\", "*", "?", "a"}[rtChoose("bsunit", 4)]
+	}
+	return out + "\""
+}
+
 // jsonBoundary chooses a range-boundary object, complete or with "min"/"max" missing as direct
 // members but occurring deeper down.
 func jsonBoundary() string {
@@ -178,6 +187,52 @@ func bshapeOf(c int) int {
 func jsonObject(depth int) string {
 	out := "{"
 	sep := ""
+	if rtParam("BS") == 1 { // strings with backslashes and wildcard characters in the literal positions
+		switch rtChoose("bsdoc", 4) {
+		case 0:
+			return jsonBackslashStr() // the document is the string itself
+		case 1:
+			return "{\"left\":" + jsonBackslashStr() + ",\"operator\":\"EQUALS\",\"right\":\"v\"}"
+		case 2:
+			return "{\"left\":\"a\",\"operator\":" + jsonStr([]string{"EQUALS", "LIKE"}[rtChoose("op", 2)]) + ",\"right\":" + jsonBackslashStr() + "}"
+		}
+		return "{\"left\":\"a\",\"operator\":\"RANGE\",\"right\":{\"min\":" + jsonBackslashStr() + ",\"max\":\"z\",\"inclusive\":true}}"
+	}
+	if rtParam("NEST") == 1 { // an operator object (any operator, scalar members of the wrong shape) below a well-formed parent
+		scalar := func(name string) string {
+			switch rtChoose(name, 4) {
+			case 0:
+				return ""
+			case 1:
+				return "\"" + name + "\":\"b\""
+			case 2:
+				return "\"" + name + "\":5"
+			}
+			return "\"" + name + "\":[\"x\",\"y\"]"
+		}
+		inner := "{"
+		sep := ""
+		if l := scalar("left"); l != "" {
+			inner += l
+			sep = ","
+		}
+		inner += sep + "\"operator\":" + jsonStr(opNames[rtChoose("op", len(opNames))])
+		if r := scalar("right"); r != "" {
+			inner += "," + r
+		}
+		inner += "}"
+		switch rtChoose("outer", 5) {
+		case 0:
+			return "{\"left\":\"a\",\"operator\":\"EQUALS\",\"right\":" + inner + "}"
+		case 1:
+			return "{\"left\":" + inner + ",\"operator\":\"NOT\"}"
+		case 2:
+			return "{\"left\":\"a\",\"operator\":\"AND\",\"right\":" + inner + "}"
+		case 3:
+			return "{\"left\":" + inner + ",\"operator\":\"EQUALS\",\"right\":\"v\"}"
+		}
+		return "{\"left\":\"a\",\"operator\":\"GREATER\",\"right\":" + inner + "}"
+	}
 	rb := rtParam("RB") == 1 && depth == rtParam("D") // the root's right member is a boundary object
 	if rb {
 		if rtChoose("hasleft", 2) == 0 {
@@ -210,6 +265,17 @@ func jsonObject(depth int) string {
 	nExtras := 4
 	if rtParam("LITE") == 1 {
 		nExtras = 2
+	}
+	if rtParam("PW") == 1 { // boost powers and fuzzy distances only the API / JSON can produce
+		switch rtChoose("pw", 4) {
+		case 1:
+			return out + sep + "\"power\":0}"
+		case 2:
+			return out + sep + "\"power\":-2.5}"
+		case 3:
+			return out + sep + "\"distance\":-1}"
+		}
+		return out + "}"
 	}
 	switch rtChoose("extras", nExtras) {
 	case 1:
